@@ -297,6 +297,8 @@ fn run_history(out: &mut Out, root: &Path, r: &mut Rng, plan: &Plan, fixed: Opti
                     f.set_len(k.min(len)).unwrap();
                     drop(f);
                     expected.retain(|x| !(x.2 == *fname && x.3 > k));
+                    // numbers of records lost in the crash may be given out again
+                    last_ret = expected.last().map_or(0, |x| x.0);
                 }
                 wal = Some(Wal::new(&dir).unwrap());
                 had_crash = true;
